@@ -172,6 +172,7 @@ class QODEvaluate(DescriptorMixin, EvalContract):
     cls = 'QueryObjectDescriptor'
     props = ('C01', 'C02', 'C16')
     K = 1
+    inline_gens = ('_bind_selected_variables_',)
     trusted = ("no rule conclusions attached (query mode); rule mode is covered by contracts/rules.py",
                "_warn_on_unbound_variables_ has no effect on evaluation state (writes warned_vars / logger only)",
                "itertools.product via utils.generate_combinations: every combination of one row per stream (A6)")
